@@ -577,12 +577,20 @@ class MolGraph:
             )
 
         bonds = (matrix > threshold).nonzero()
+        pairs = [(int(i), int(j)) for i, j in zip(*bonds)]
 
-        for i, j in zip(*bonds):
+        # reject the whole request before the first bond is added
+        for atom1, atom2 in pairs:
+            if atom1 not in self._atom_attrs or atom2 not in self._atom_attrs:
+                raise ValueError("Atoms not in Graph")
+            if atom1 == atom2:
+                raise ValueError("An atom can not be bonded to itself")
+
+        for atom1, atom2 in pairs:
             if include_bond_order:
-                self.add_bond(int(i), int(j), bond_order=matrix[i, j])
+                self.add_bond(atom1, atom2, bond_order=matrix[atom1, atom2])
             else:
-                self.add_bond(int(i), int(j))
+                self.add_bond(atom1, atom2)
 
     @classmethod
     def compose(cls, mol_graphs: Iterable[MolGraph]) -> Self:
